@@ -31,6 +31,16 @@ THEOREMS = [
     "C09_registry",
     "C09_rule",
     "C09_rule_table",
+    "C09_in_block",
+    "C09_exactly_once",
+    "C09_no_spurious",
+    "C09_aligned",
+    "C09_same_meaning",
+    "C09_fill_complex_refused",
+    "C09_history_wf",
+    "C09_history",
+    "C09_load_aligned",
+    "C09_load_redundant",
 ]
 
 CLASSES = ci.CLASSES
